@@ -234,8 +234,11 @@ class Verdict:
         ev = dict(property_id=self.pid, tier=self.tier, seed=self.seed, level=level, coverage=self.coverage,
                   assumptions=self.assumptions, wall_s=round(time.time() - self.t0, 2), violations=len(seen),
                   known_findings_reported=self.known_hits, notes=self.notes)
-        os.makedirs(os.path.join(VERIF, "evidence"), exist_ok=True)
-        json.dump(ev, open(os.path.join(VERIF, "evidence", self.pid + ".json"), "w"), indent=1, default=str)
+        # bin/seedtest (development aid) points this elsewhere so that runs against a deliberately broken tree never
+        # overwrite the evidence of the registered commands
+        evdir = os.environ.get("VERIF_EVIDENCE_DIR") or os.path.join(VERIF, "evidence")
+        os.makedirs(evdir, exist_ok=True)
+        json.dump(ev, open(os.path.join(evdir, self.pid + ".json"), "w"), indent=1, default=str)
         return rc
 
 
